@@ -538,10 +538,17 @@ func VH_C05_EditedAccountGovernsAllItsSessions() {
 	vAssume(e.has(hotline.AccessModifyUser))
 	s := []*hotline.ClientConn{vNewClient(e.srv, "bob"), vNewClient(e.srv, "bob"), vNewClient(e.srv, "bob")}
 	e.am.getResult = &hotline.Account{Login: "bob", Name: "Bob", Password: "H:zzold", Access: s[0].Account.Access}
+	// a session of a different account whose login differs from the edited one only in case
+	bigBob := vNewClient(e.srv, "BOB")
+	bigBobAccess := bigBob.Account.Access
 	newAccess := vBytesN("access_after_edit", 8)
 	st := hotline.NewTransaction(hotline.TranSetUser, e.cc.ID, f(hotline.FieldUserLogin, []byte{0x9d, 0x90, 0x9d}), f(hotline.FieldUserName, []byte("Bob")),
 		f(hotline.FieldUserAccess, newAccess), f(hotline.FieldUserPassword, []byte{0}))
-	HandleSetUser(e.cc, &st)
+	sres := HandleSetUser(e.cc, &st)
+	vAssert("sessions_of_other_accounts_keep_their_privileges", bigBob.Account.Access == bigBobAccess)
+	for _, r := range sres {
+		vAssert("sessions_of_other_accounts_are_not_told_a_new_access", !(r.Type == hotline.TranUserAccess && r.ClientID == bigBob.ID))
+	}
 	var want hotline.AccessBitmap
 	copy(want[:], newAccess)
 	k := vChoice("session", 3)
